@@ -113,7 +113,7 @@ func SubprocessTester(e Engine, base *ReplayFile, dir string, want *Violation) T
 		cand := *base
 		cand.Plan = raw
 		cand.Choices = choices
-		cand.Violation = nil
+		cand.Violation = want
 		in := filepath.Join(dir, fmt.Sprintf("cand-%d-%d.json", os.Getpid(), n))
 		outp := in + ".out"
 		defer os.Remove(in)
